@@ -7,7 +7,7 @@ def run(prop, path):
     rec = json.load(open(path))
     wd = os.path.join(vlib.outdir(prop), "replay")
     os.makedirs(wd, exist_ok=True)
-    binp = vlib.build_harness(wd)
+    binp = vlib.build_harness(wd, driver=rec["driver"])
     scheds = [{"name": "replay", "scenario": rec["scenario"], "labels": rec["labels"]}]
     traces, st = vlib.run_harness(binp, rec["driver"], wd, scheds=scheds, n=0, seed=1, shards=1, opt=rec.get("opt", ""), tag="replay")
     viol, consumed, total, _ = vlib.validate_traces(wd, rec["specdirs"], rec["monitor"], traces, deque=rec.get("deque", False))
